@@ -103,3 +103,155 @@ def _(iv):
         return And(i0 <= i1, i1 <= it_size(it).t, it_size(it).t == elist(es).len,
                    z3.ForAll([j], implies(And(i0 <= j, j < i1), skipped(s, es, elist(es)[j]))))
     iv.inv("skipped_prefix", inv)
+
+
+# ------------------------------------------------------------------ the set itself
+def eflag(es): return es.f("AbstractEntrySet.__is_sorted")
+
+
+def inst_of(s, e):
+    return V.DT.inst(entry_ts(s, e))
+
+
+def sorted_inst(s, es):
+    """The entry list is in chronological order: instants non-decreasing."""
+    L = elist(es)
+    i, j = z3.Int("so_i"), z3.Int("so_j")
+    return z3.ForAll([i, j], implies(And(0 <= i, i < j, j < L.len), inst_of(s, L[i]) <= inst_of(s, L[j])))
+
+
+def es_inv(s, es):
+    """Representation invariant of an entry set: the 'sorted' flag is truthful."""
+    return implies(eflag(es).t, sorted_inst(s, es))
+
+
+def list_unchanged(s, es_new, es_old_state):
+    """Same list object with the same content as in the old state (a stable sort of a sorted list is the identity)."""
+    L1, L0 = elist(es_new), elist(es_old_state)
+    i = z3.Int("lu_i")
+    return And(L1.t == L0.t, L1.len == L0.len, z3.ForAll([i], implies(And(0 <= i, i < L0.len), L1[i].t == L0[i].t)))
+
+
+GLS = "rp2.gain_loss_set.GainLossSet"
+GLS_SORT_FIELDS = ["GainLossSet.__taxable_events_to_fraction", "GainLossSet.__acquired_lots_to_fraction",
+                   "GainLossSet.__taxable_events_to_number_of_fractions", "GainLossSet.__acquired_lots_to_number_of_fractions",
+                   "GainLossSet.__transaction_type_2_count"]
+DICT_KEYS = [("dhas", "Ref"), ("dhas", "txid"), ("dhas", "glkey"), ("dval", "Ref", "Ref"), ("dvaln", "Ref"), ("dval", "txid", "Int"), ("dval", "glkey", "Int"),
+             ("dlen",)]
+
+
+def sort_frame(k, me):
+    """What (re)sorting a set may touch: the elements of its list, its flag, its parent map, the per-sort dictionaries of a gain/loss set
+    (fresh dictionaries each time), and freshly allocated objects."""
+    k.modifies(("lel", "Ref"), refs=lambda s: [elist(me(s))])
+    k.modifies("AbstractEntrySet.__is_sorted", refs=lambda s: [me(s)])
+    for f in GLS_SORT_FIELDS:
+        k.modifies(f, refs=lambda s: [me(s)])
+    for key in DICT_KEYS:
+        k.modifies(key, refs=lambda s: [me(s).f("AbstractEntrySet._entry_to_parent")], fresh_only=True)
+    k.modifies(("alloc",))
+    k.modifies(("llen",), refs=lambda s: [], fresh_only=True)
+
+
+def sort_post(k, me, old_me):
+    k.ensures("chronological", lambda s: sorted_inst(s, me(s)))
+    k.ensures("same_list_same_length", lambda s: And(elist(me(s)).t == elist(old_me(s)).t, elist(me(s)).len == elist(old_me(s)).len))
+    k.ensures("identity_on_sorted_list", lambda s: implies(sorted_inst(s.old, old_me(s)), list_unchanged(s, me(s), old_me(s))))
+    k.ensures("window_kept", lambda s: And(efrom(me(s)) == efrom(old_me(s)), eto(me(s)) == eto(old_me(s))))
+
+
+@contract(AES + "._sort_entries", props=["C10", "C09", "C17"])
+def _(k):
+    me, old_me = (lambda s: s.a.self), (lambda s: s.old.a.self)
+    sort_post(k, me, old_me)
+    sort_frame(k, me)
+    k.raises_never("Exception")
+
+
+@contract(GLS + "._sort_entries", props=["C10", "C13"])
+def _(k):
+    me, old_me = (lambda s: s.a.self), (lambda s: s.old.a.self)
+    sort_post(k, me, old_me)
+    sort_frame(k, me)
+    k.raises("RP2ValueError")          # the sanity errors ("exceeded", "already exhausted"): unreachable on matcher output, C02
+
+
+@contract(AES + ".__iter__", props=["C10", "C06", "C07", "C09"])
+def _(k):
+    me, old_me = (lambda s: s.a.self), (lambda s: s.old.a.self)
+    k.requires("flag_truthful", lambda s: es_inv(s, s.a.self))
+    sort_post(k, me, old_me)
+    sort_frame(k, me)
+    k.ensures("flag_truthful", lambda s: And(eflag(me(s)).t, es_inv(s, me(s))))
+    k.ensures("fresh_iterator_at_start", lambda s: And(Not(z3.Select(s.ex.alloc_arr(s.oh.heap), s.result.t)), it_set(s.result).t == me(s).t,
+                                                       it_index(s.result).t == 0, it_size(s.result).t == elist(me(s)).len, it_wf(s, s.result)))
+    k.raises("RP2ValueError")
+    for f in ("EntrySetIterator.__entry_set", "EntrySetIterator.__entry_set_size", "EntrySetIterator.__index"):
+        k.modifies(f, refs=lambda s: [], fresh_only=True)
+
+
+@contract(AES + ".duplicate", props=["C10"])
+def _(k):
+    me, old_me = (lambda s: s.result), (lambda s: s.old.a.self)
+    k.requires("flag_truthful", lambda s: es_inv(s, s.a.self))
+    k.ensures("fresh_view", lambda s: And(Not(z3.Select(s.ex.alloc_arr(s.oh.heap), s.result.t)), V.cls_of(s.result.t) == V.cls_of(s.a.self.t)))
+    k.ensures("shares_the_entry_list", lambda s: elist(s.result).t == elist(s.old.a.self).t)          # same objects => same figures (C10 ii)
+    k.ensures("window_is_the_requested_one", lambda s: And(efrom(s.result) == s.a.from_date, eto(s.result) == s.a.to_date))
+    k.ensures("same_identity_fields", lambda s: And(*[s.result.f(f) == s.old.a.self.f(f) for f in
+                                                      ("AbstractEntrySet.__configuration", "AbstractEntrySet.__entry_set_type", "AbstractEntrySet.__asset")]))
+    k.ensures("chronological", lambda s: sorted_inst(s, s.result))
+    k.ensures("length_kept", lambda s: elist(s.result).len == elist(s.old.a.self).len)
+    k.ensures("content_kept_if_sorted", lambda s: implies(sorted_inst(s.old, s.old.a.self), list_unchanged(s, s.result, s.old.a.self)))
+    k.ensures("original_window_untouched", lambda s: And(efrom(s.a.self) == efrom(s.old.a.self), eto(s.a.self) == eto(s.old.a.self)))
+    k.ensures("flag_truthful", lambda s: And(eflag(s.result).t, es_inv(s, s.result)))
+    k.raises("RP2ValueError")
+    # frame: the shared list may be re-sorted, the shared parent map rewritten; every instance field only at the fresh copy
+    k.modifies(("lel", "Ref"), refs=lambda s: [elist(s.a.self)])
+    for key in DICT_KEYS:
+        k.modifies(key, refs=lambda s: [s.a.self.f("AbstractEntrySet._entry_to_parent")], fresh_only=True)
+    k.modifies(("alloc",))
+    k.modifies(("llen",), refs=lambda s: [], fresh_only=True)
+    for f in ["AbstractEntrySet.__configuration", "AbstractEntrySet.__entry_set_type", "AbstractEntrySet.__asset", "AbstractEntrySet._from_date",
+              "AbstractEntrySet._to_date", "AbstractEntrySet._entry_list", "AbstractEntrySet._entry_set", "AbstractEntrySet._entry_to_parent",
+              "AbstractEntrySet.__is_sorted"] + GLS_SORT_FIELDS:
+        k.modifies(f, refs=lambda s: [], fresh_only=True)
+
+
+inline(AES + "._check_sort", AES + "._force_sort", ESI + ".__init__", AES + ".count", AES + ".from_date", AES + ".to_date")
+
+
+# ------------------------------------------------------------------ InputData
+ID = "rp2.input_data.InputData"
+ID_SETS = [("in", "IN"), ("out", "OUT"), ("intra", "INTRA")]
+
+
+def id_unf(d, which): return d.f(f"InputData.__unfiltered_{which}_transaction_set")
+def id_fil(d, which): return d.f(f"InputData.__filtered_{which}_transaction_set")
+
+
+def input_data_inv(s, d):
+    """What InputData.__init__ establishes: each filtered set is a view (same entry list) of the unfiltered one with the requested window."""
+    cs = []
+    for w, _ in ID_SETS:
+        cs += [elist(id_fil(d, w)).t == elist(id_unf(d, w)).t, efrom(id_fil(d, w)) == d.f("InputData.__from_date"), eto(id_fil(d, w)) == d.f("InputData.__to_date"),
+               es_inv(s, id_unf(d, w)), es_inv(s, id_fil(d, w)), id_fil(d, w).t != id_unf(d, w).t]
+    return And(*cs)
+
+
+@contract(ID + ".__init__", props=["C10"])
+def _(k):
+    a = {"in": "unfiltered_in_transaction_set", "out": "unfiltered_out_transaction_set", "intra": "unfiltered_intra_transaction_set"}
+    arg = lambda s, w: getattr(s.a, a[w])
+    k.requires("sets_wf", lambda s: And(*[es_inv(s, arg(s, w)) for w, _ in ID_SETS]))
+    k.requires("distinct_lists", lambda s: And(elist(arg(s, "in")).t != elist(arg(s, "out")).t, elist(arg(s, "in")).t != elist(arg(s, "intra")).t,
+                                               elist(arg(s, "out")).t != elist(arg(s, "intra")).t))
+    k.ensures("unfiltered_sets_are_the_arguments", lambda s: And(*[id_unf(s.a.self, w).t == arg(s, w).t for w, _ in ID_SETS]))
+    k.ensures("unfiltered_windows_untouched", lambda s: And(*[And(efrom(arg(s, w)) == efrom(s.old.sv(arg(s, w).v)), eto(arg(s, w)) == eto(s.old.sv(arg(s, w).v))) for w, _ in ID_SETS]))
+    k.ensures("filtered_sets_are_windowed_views", lambda s: And(*[And(elist(id_fil(s.a.self, w)).t == elist(s.old.sv(arg(s, w).v)).t,
+                                                                     efrom(id_fil(s.a.self, w)) == s.a.from_date, eto(id_fil(s.a.self, w)) == s.a.to_date,
+                                                                     Not(z3.Select(s.ex.alloc_arr(s.oh.heap), id_fil(s.a.self, w).t))) for w, _ in ID_SETS]))
+    k.ensures("window_stored", lambda s: And(s.a.self.f("InputData.__from_date") == s.a.from_date, s.a.self.f("InputData.__to_date") == s.a.to_date))
+    k.ensures("all_chronological", lambda s: And(*[sorted_inst(s, arg(s, w)) for w, _ in ID_SETS]))
+    k.ensures("content_kept_if_sorted", lambda s: And(*[implies(sorted_inst(s.old, s.old.sv(arg(s, w).v)), list_unchanged(s, arg(s, w), s.old.sv(arg(s, w).v))) for w, _ in ID_SETS]))
+    k.raises("RP2ValueError")
+    k.raises("RP2TypeError")
